@@ -227,6 +227,8 @@ static int cif_map_set_item(cif_map_t *map, const UChar *key, cif_value_tp *valu
 
                         /* referenced by the HASH_ADD_KEYPTR macro: */
                         FAILURE_HANDLER(soft):
+                        /* the value may already have been cloned; it holds no resources otherwise */
+                        cif_value_clean(&(item->as_value));
                         free(key_copy);
                     }
 
